@@ -27,7 +27,7 @@ func init() {
 		ID:    "C12",
 		Level: "fault_enumeration",
 		Rule: "hostile DEFLATE streams: expansion sizes limit-1 / limit / limit+1 (padding inside the root and after the root end tag, so silent truncation still leaves a well-formed document) for limits {unset=5MiB, 1, 64, 4096, 1MiB} on every inbound entry point (unverified decoders always 5MiB); bombs of ratio 10^2..10^3+ up to 64 MiB (quick) / 1 GiB (thorough) nominal expansion, also as the plaintext of an attacker-encrypted assertion, " +
-			"with bytes allocated during the rejected call measured from runtime.MemStats (bound 8 x limit + 4 x encoded input + 4 MiB); metamorphic: genuine, non-conforming and corrupted messages presented raw and DEFLATE-compressed at a drawn level must give the same acceptance, data and error class; distinct = shape hash (family, limit, delta, entry point, padding family, level, outcome)",
+			"with bytes allocated during the rejected call measured from runtime.MemStats against a control (the same number of incompressible bytes through the same wrapping): bound = control + 8 x limit + 4 MiB; metamorphic: genuine, non-conforming and corrupted messages presented raw and DEFLATE-compressed at a drawn level must give the same acceptance, data and error class; distinct = shape hash (family, limit, delta, entry point, padding family, level, outcome)",
 		Directed:   c12Directed,
 		Run:        c12Run,
 		MustHit:    []string{"family=boundary", "family=bomb", "family=metamorphic", "family=bomb-in-encrypted", "delta=-1", "delta=0", "delta=+1", "limit=unset", "limit=1", "limit=4096", "pad=after-root", "pad=inside-root", "alloc_measured"},
@@ -275,30 +275,45 @@ func c12Run(r *core.Run) {
 			nominal = eff + 1
 		}
 		comp := deflateRepeat("<a>", ' ', nominal, "</a>", 9)
-		enc := world.B64(comp)
+		// control: the same number of incompressible bytes through the same wrapping. What the
+		// library allocates for it is the cost of handling an input of this size; the bomb may
+		// cost at most that plus a few times the limit.
+		ctrl := make([]byte, len(comp))
+		t.SubRand("c12.ctrl").Read(ctrl)
+		wrap := func(payload []byte) string { return world.B64(payload) }
 		if family == "bomb-in-encrypted" {
 			ep = "ValidateEncodedResponse"
 			ctx["entry_point"] = ep
-			eo := &world.EncOpts{DataAlg: world.DataAlgs[sel%5], KeyAlg: world.KeyAlgs[0], Recipient: &world.Key(spKey).RSA.PublicKey, Rand: t.SubRand("c12.rand")}
-			ex, err := world.EncryptAssertion(eo, comp)
-			if err != nil {
-				r.HarnessError("encrypt: %v", err)
-				return
+			algo := world.DataAlgs[sel%5]
+			rnd := t.SubRand("c12.rand")
+			wrap = func(payload []byte) string {
+				eo := &world.EncOpts{DataAlg: algo, KeyAlg: world.KeyAlgs[0], Recipient: &world.Key(spKey).RSA.PublicKey, Rand: rnd}
+				ex, err := world.EncryptAssertion(eo, payload)
+				if err != nil {
+					r.HarnessError("encrypt: %v", err)
+					return ""
+				}
+				doc := `<samlp:Response xmlns:samlp="` + world.NSProtocol + `" xmlns:saml="` + world.NSAssertion + `" ID="_b" Version="2.0" IssueInstant="` + now.UTC().Format(time.RFC3339) + `"><saml:Issuer>` + s.Fed.IdPIssuer + `</saml:Issuer><samlp:Status><samlp:StatusCode Value="` + world.StatusOK + `"/></samlp:Status>` + ex + `</samlp:Response>`
+				return world.B64([]byte(doc))
 			}
-			doc := `<samlp:Response xmlns:samlp="` + world.NSProtocol + `" xmlns:saml="` + world.NSAssertion + `" ID="_b" Version="2.0" IssueInstant="` + now.UTC().Format(time.RFC3339) + `"><saml:Issuer>` + s.Fed.IdPIssuer + `</saml:Issuer><samlp:Status><samlp:StatusCode Value="` + world.StatusOK + `"/></samlp:Status>` + ex + `</samlp:Response>`
-			enc = world.B64([]byte(doc))
 			eff = limit
 			if eff == 0 {
 				eff = c12Default
 			}
 		}
+		enc := wrap(comp)
+		encCtrl := wrap(ctrl)
+		if r.Harness != "" {
+			return
+		}
+		allocCtrl := allocDuring(func() { c12Call(s.Node, ep, encCtrl) })
 		r.Fault("bomb")
 		var oc world.Outcome
 		alloc := allocDuring(func() { oc, _ = c12Call(s.Node, ep, enc) })
 		r.Probe("alloc_measured")
 		r.Steps++
-		bound := uint64(8*eff) + uint64(4*len(enc)) + 4<<20
-		ctx["nominal_expansion"], ctx["compressed_len"], ctx["alloc"], ctx["alloc_bound"] = nominal, len(comp), alloc, bound
+		bound := allocCtrl + uint64(8*eff) + 4<<20
+		ctx["nominal_expansion"], ctx["compressed_len"], ctx["alloc"], ctx["alloc_control"], ctx["alloc_bound"], ctx["effective_limit"] = nominal, len(comp), alloc, allocCtrl, bound, eff
 		r.Logf("%s limit=%s eff=%d nominal=%d ep=%s -> %s within_bound=%v", family, lname, eff, nominal, ep, oc.Class(), alloc <= bound)
 		r.Shape(fmt.Sprintf("%s.%s.x%d.%s.%s.%v", family, lname, mult, ep, oc.Class(), alloc <= bound))
 		r.Sample = obs("family", family, "limit", lname, "nominal_expansion", nominal, "compressed_len", len(comp), "entry_point", ep, "alloc", alloc, "alloc_bound", bound, "outcome", oc.Class())
